@@ -101,6 +101,7 @@ pub fn scenarios(thorough: bool) -> Vec<Scenario> {
     v.push(pair_conflict_scenario("pair-conflict-move", 6, 5, if thorough { &[1, 3, 8] } else { &[1, 8] }, if thorough { 5 } else { 4 }, &[Op::Snapshot(0), Op::ObjPut(1, 1), Op::ObjPut(0, 1)]));
     v.push(pair_scenario("pair-rootkinds", &[8, 9, 12, 14], if thorough { 5 } else { 4 }, &[Op::Resolve(0, 0, 0), Op::Resolve(1, 0, 1)]));
     v.push(trio_scenario("trio", if thorough { 7 } else { 6 }));
+    v.push(single_scenario("single-content", content_docs(), if thorough { 4 } else { 3 }, &[Op::Reopen(0), Op::Snapshot(0)]));
     v.extend(cross_scenarios(thorough));
     v
 }
@@ -115,7 +116,25 @@ pub fn run(thorough: bool) {
         max_states: if thorough { 200_000 } else { 5_000 },
         stop_on_violation: true,
     });
-    rep.set("rule", json!("in EVERY state (staged changes, object conflicts, array conflicts with ghost elements of deleted objects, deleted descriptors) and for every replica: read() before; then on a rebuilt copy each of: commit / commit with metadata (when staged; includes the automatic resolution of array conflicts), stage_full_snapshot (once, twice, followed by commit), meld from every other replica without refresh, and - when nothing is staged and storage holds nothing the replica has not applied - refresh, reload; compositions commit->reload, commit->refresh, snapshot->commit->reload; read() afterwards must be identical (for refresh/reload/meld the whole view). distinct_nontrivial = distinct documents"));
+    // the same exploration with the object cache reduced to one entry: reload and refresh keep that cache, so with
+    // the default capacity a re-indexing mistake stays hidden behind cached objects
+    std::env::set_var("MELDA_DATA_CACHE_CAP", "1");
+    run_h(&mut rep, RunCfg {
+        scenarios: {
+            let mut v = vec![];
+            v.push(single_scenario("single-content-cache1", content_docs(), if thorough { 4 } else { 3 }, &[Op::Reopen(0), Op::Snapshot(0)]));
+            v.push(pair_conflict_scenario("pair-conflict-cache1", 2, 3, &[1, 8], if thorough { 4 } else { 3 }, &[Op::Resolve(1, 0, 0), Op::Snapshot(1)]));
+            v.push(pair_scenario("pair-arrays-cache1", &[2, 3, 6], if thorough { 5 } else { 4 }, &[Op::Resolve(1, 0, 1), Op::Snapshot(1)]));
+            v
+        },
+        probes: vec![Arc::new(MaintenanceProbe)],
+        pools: vec![1],
+        time_budget_s: if thorough { 1200 } else { 30 },
+        max_states: if thorough { 100_000 } else { 5_000 },
+        stop_on_violation: true,
+    });
+    std::env::remove_var("MELDA_DATA_CACHE_CAP");
+    rep.set("rule", json!("in EVERY state (staged changes, object conflicts, array conflicts with ghost elements of deleted objects, deleted descriptors) and for every replica: read() before; then on a rebuilt copy each of: commit / commit with metadata (when staged; includes the automatic resolution of array conflicts), stage_full_snapshot (once, twice, followed by commit), meld from every other replica without refresh, and - when nothing is staged and storage holds nothing the replica has not applied - refresh, reload; compositions commit->reload, commit->refresh, snapshot->commit->reload; read() afterwards must be identical (for refresh/reload/meld the whole view). Three scenarios are explored a second time with the object cache capacity set to 1. distinct_nontrivial = distinct documents"));
     finalize(&mut rep);
     rep.finish();
 }
